@@ -6,7 +6,7 @@ from props import c10_ilp as common
 from props.c10_ilp import g_instance, g_plan, HEADER
 
 TRUSTED = common.TRUSTED + [
-    "tiny-instance sweep: Gurobi (MIPGap forced to 0 by the harness for this stream only) is trusted to return an optimum; "
+    "tiny-instance sweep: Gurobi with the planner's own parameters (MIPGap 0.1: below 10 graphs it cannot hide a unit) is trusted to return an optimum; "
     "the exhaustive optimum is `best_goodput` evaluated by vm_compute over all plans with starts up to the largest deadline",
 ]
 
@@ -56,7 +56,7 @@ def gen_tiny(rng, thorough=False):
     horizon = max(t["deadline"] for t in tasks)
     return {"now": now, "pools": [flat], "graphs": graphs, "tasks": tasks, "horizon": max(horizon, now + 1),
             "cfg": {"enforce": True, "retract": False, "release_tg": chain, "goal": "max_goodput", "lookahead": 0,
-                    "allowed0": [], "exact": True}}
+                    "allowed0": []}}
 
 
 # ---- input signatures of the known findings (predicates over INPUTS, see the refuted lemmas)
@@ -164,7 +164,7 @@ def run(ctx):
         sig_counts["free"] += not sigs
     ctx.cov["input_distribution"]["tiny_signatures"] = sig_counts
     ctx.rules.append("S-opt: tiny instances (<= 3 offered tasks quick / 4 thorough, <= 2 workers, <= 2 strategies, deadlines <= now + 10, "
-                     "sometimes a two-task chain offered as a whole or one running task), Gurobi with MIPGap 0 vs `best_goodput` "
+                     "sometimes a two-task chain offered as a whole or one running task), Gurobi (the planner's own MIPGap 0.1) vs `best_goodput` "
                      "(exhaustive search of feasible_clb plans in Coq); equality required unless the input matches the signature of "
                      "F11-ii / F11-iii / ILP-iv, where only solver <= exhaustive is required")
     try:
